@@ -1025,6 +1025,9 @@ def _sweep_probe(cfg, item):
     (cls, index) = item
     seed = run_seed(cfg['verif_seed'], PROP, cls, index)
     plan = gen_plan(seed, cls)
+    if any(v.get('big') for v in plan['values']):
+        # the enumeration re-runs the whole plan once per fault position: not with 100 KiB documents in it
+        return {'digest': '', 'violation': None, 'counters': {}, 'cls': cls, 'index': index, 'targets': [], 'nops': 0}
     res = execute(plan)
     targets = []
     for i, op in enumerate(plan['ops'][:res['nops']]):
